@@ -67,6 +67,7 @@ type build struct {
 	pkg       string           // package whose test binary is the worker
 	harness   []string         // files under /verif/harness mapped into pkg's directory
 	extra     map[string]string // further overlay-added files: virtual path (rel. to repo) -> file under /verif
+	altHarness map[string]string // harness file -> black-box replacement used when the white-box one no longer compiles against the tree (the implementation's private representation changed)
 	patterns  []string         // packages to instrument
 	rules     instrument.Rules
 	race      bool
@@ -155,6 +156,7 @@ type workerOut struct {
 }
 
 type builtWorker struct {
+	notes   []string
 	bin     string
 	instr   *instrument.Report
 	seconds float64
@@ -172,6 +174,41 @@ func repoHead() string {
 
 // buildWorker instruments (if needed) and builds the worker test binary into scratch.
 func buildWorker(b *build, scratch string) (*builtWorker, error) {
+	bw, err := buildWorkerWith(b, scratch, nil)
+	if err == nil || len(b.altHarness) == 0 {
+		return bw, err
+	}
+	// A harness file that reads the implementation's private state does not compile any more: the representation
+	// changed. That is not a property violation and need not stop the check: the oracles that do not depend on it
+	// (linearizability against the reference model, black-box liveness, panics) still decide the property.
+	used := map[string]string{}
+	for h, alt := range b.altHarness {
+		if strings.Contains(err.Error(), filepath.Base(h)+":") {
+			used[h] = alt
+		}
+	}
+	if len(used) == 0 {
+		return nil, err
+	}
+	fmt.Fprintf(os.Stderr, "tlsim: NOTE build %s: the white-box accessor no longer compiles against this tree; falling back to the black-box oracles only\n", b.name)
+	bw2, err2 := buildWorkerWith(b, scratch, used)
+	if err2 != nil {
+		return nil, err
+	}
+	bw2.notes = append(bw2.notes, "white-box accessor ("+strings.Join(keysOf(used), ", ")+") did not compile against this tree; black-box oracles only")
+	return bw2, nil
+}
+
+func keysOf(m map[string]string) []string {
+	var out []string
+	for k := range m {
+		out = append(out, k)
+	}
+	sort.Strings(out)
+	return out
+}
+
+func buildWorkerWith(b *build, scratch string, replace map[string]string) (*builtWorker, error) {
 	t0 := time.Now()
 	dir := filepath.Join(scratch, "build-"+b.name)
 	if err := os.MkdirAll(dir, 0o755); err != nil {
@@ -188,7 +225,11 @@ func buildWorker(b *build, scratch string) (*builtWorker, error) {
 	}
 	pkgDir := filepath.Join(repoDir, strings.TrimPrefix(b.pkg, modPath+"/"))
 	for _, h := range b.harness {
-		overlay[filepath.Join(pkgDir, filepath.Base(h))] = filepath.Join(verifDir, "harness", h)
+		src := h
+		if alt, ok := replace[h]; ok {
+			src = alt
+		}
+		overlay[filepath.Join(pkgDir, filepath.Base(h))] = filepath.Join(verifDir, "harness", src)
 	}
 	for virt, real := range b.extra {
 		overlay[filepath.Join(repoDir, virt)] = filepath.Join(verifDir, real)
@@ -525,6 +566,9 @@ func check(id, tier string) int {
 		cfgAgg["evaluations"] = cEvals
 		cfgAgg["wall_s"] = time.Since(cStart).Seconds()
 		cfgAgg["build_s"] = bw.seconds
+		if len(bw.notes) > 0 {
+			cfgAgg["build_notes"] = bw.notes
+		}
 		if bw.instr != nil {
 			cfgAgg["instrumented_packages"] = bw.instr.Packages
 			cfgAgg["rewrites"] = bw.instr.Stats
